@@ -160,11 +160,20 @@ theorem C13_rightless_user_inert_fails :
       authorize st true (some id) .flush = .proceed :=
   ⟨_, ['u'], _, rfl, rfl, rfl, rfl, by decide, by decide, by decide, by decide, by decide, by decide⟩
 
-/-- BATCH never executes anything: the dispatcher has no arm for it (it panics). -/
-theorem C13_batch_never_executes (st : State) (mgr : Bool) (uid : Option Str) :
-    authorize st mgr uid .batch = .crash := by
-  have h : dispatched .batch = false := by decide
-  simp [authorize, h]
+/-- BATCH executes nothing, for every state and identity (also none, also `bypass`): the
+dispatcher's own arm answers 400 "BATCH is not supported by this endpoint" before any handler,
+and the state is unchanged. (Before the `fix:` commit fbe6de4 the dispatcher panicked here.) -/
+theorem C13_batch_never_executes (alnum : Char → Bool) (st : State) (mgr : Bool) (uid : Option Str) :
+    authorize st mgr uid .batch = .refused ∧ dispatch alnum st mgr uid .batch = (.s400, st) := by
+  have hd : dispatched .batch = true := by decide
+  have hp : passesIdentity .batch = false := by decide
+  have hr : refused .batch = true := by decide
+  have ha : authorize st mgr uid .batch = .refused := by simp [authorize, hd, hp, hr]
+  exact ⟨ha, by simp [dispatch, ha]⟩
+
+/-- The dispatcher has an arm for every `Command` variant the parser can produce (so the
+`crash` verdict of the model is unreachable on the present code). -/
+theorem C13_every_variant_dispatched (c : Cmd) : dispatched c = true := dispatched_all c
 
 /-- Non-vacuity for the partial theorems: an editor may store and query, a viewer may query
 but not store, nobody but the admin may define. -/
